@@ -96,6 +96,8 @@ def blocks(prog, run):
             rows, cols, form = blockdom.gcanon(sy.rows), blockdom.gcanon(sy.cols), blockdom.fshow(sy.form)
             ob("R-order", "rows = [reference sensors ; roving sensors of every setup in setup order]", rows == WANT_ROWS, f"rows {rows}", n)
             ob("R-order", "columns = reference sensors", cols == WANT_COLS, f"columns {cols}", n)
+            ob("R-order", "axes of the returned matrix = (channels, reference channels, frequency lines)", sy.lay == blockdom.STD_LAY,
+               f"(rows, columns, frequency) are carried by the array axes {sy.lay}", n)
             okf = (form == WANT_FORM) if not opq else None
             ob("R-order", "row blocks = [mean_k S_ref,ref(k) ; S_mov,ref(k) . inv(S_ref,ref(k)) . mean_k S_ref,ref(k)]", okf,
                f"{form}" + (f"  (not fully recognised: {opq[0]})" if opq else "") + ("" if okf or opq else "  (the spectral blocks are Hermitian, not symmetric: order, inverse and transposition matter)"), n)
@@ -198,24 +200,18 @@ def params(prog, run):
         ci = prog.cls(cq)
         rf = prog.find_method(ci, "run")
         fr = rel(prog.mods[rf.mod].path)
-        cs = [c for c, r in prog.calls_in(rf) if isinstance(r, FuncInfo) and r.qual == pre.qual]
-        if not cs:
+        want = {"nxseg": {"self.run_params.nxseg"}, "method": {"self.run_params.method_SD"}, "pov": {"self.run_params.pov"}, "fs": {"self.fs"}}
+        label = {"nxseg": "run_params.nxseg->SD_PreGER.nxseg", "method": "run_params.method_SD->SD_PreGER.method", "pov": "run_params.pov->SD_PreGER.pov", "fs": "self.fs->SD_PreGER.fs"}
+        res = astq.handover(prog, rf, pre.qual, want, depth=2)
+        if not res:
             run.ob("R-param", rf.qual, "SD_PreGER call", False, f"{cq}.run does not call SD_PreGER", witness="missing", file=fr)
             continue
-        for c in cs:
-            m, errs = astq.bind_args(pre.node, c)
-            for e in errs:
-                run.ob("R-param", rf.qual, "conformance", False, e, witness=e, file=fr, node=c)
-            for callee_p, attr in (("nxseg", "nxseg"), ("method", "method_SD"), ("pov", "pov")):
-                a = m.get(callee_p)
-                x = astq.expand(rf, a) if a is not None else None
-                ok = x is not None and astq.src(x) == f"self.run_params.{attr}"
-                run.ob("R-param", rf.qual, f"run_params.{attr}->SD_PreGER.{callee_p}", ok,
-                       f"`{astq.src(x) if x is not None else 'default'}`", witness=astq.src(x, 60) if x is not None else "default", file=fr, node=c)
-            a = m.get("fs")
-            x = astq.expand(rf, a) if a is not None else None
-            ok = x is not None and astq.src(x) == "self.fs"
-            run.ob("R-param", rf.qual, "self.fs->SD_PreGER.fs", ok, f"`{astq.src(x) if x is not None else None}`", witness=astq.src(x, 60) if x is not None else "missing", file=fr, node=c)
+        for rec in astq.forwarded_args(prog, rf, pre.qual, depth=2):
+            for e in rec["errors"]:
+                run.ob("R-param", rf.qual, "conformance", False, e, witness=e, file=fr, node=rec["outer_call"])
+        for c, p_, st, detail in res:
+            wit = "default" if "not passed" in detail else detail.split("`")[3][:60] if detail.count("`") >= 4 else detail[:60]
+            run.ob("R-param", rf.qual, label[p_], st, detail, witness=wit, file=fr, node=c)
 
 
 FD = "functions.fdd"
